@@ -144,6 +144,13 @@ func Catalogue() []Op {
 	// ---- delete ---------------------------------------------------------------------------
 	add(Op{Name: "delete_plain", Kind: "delete", Write: true, Main: "users", Expect: ex("User", "delete", "u3"),
 		Run: func(db *gorm.DB) error { return db.Delete(&fam.User{ID: 3, Name: "u3"}).Error }})
+	add(Op{Name: "delete_missing", Kind: "delete", Write: true, Main: "users", Expect: ex("User", "delete", "gone"),
+		Run: func(db *gorm.DB) error { return db.Delete(&fam.User{ID: 999, Name: "gone"}).Error }})
+	add(Op{Name: "delete_slice_missing", Kind: "delete", Write: true, Main: "users", Expect: ex("User", "delete", "goneA", "goneB"),
+		Run: func(db *gorm.DB) error {
+			us := []fam.User{{ID: 998, Name: "goneA"}, {ID: 999, Name: "goneB"}}
+			return db.Delete(&us).Error
+		}})
 	add(Op{Name: "delete_select_assoc", Kind: "delete", Write: true, Main: "users",
 		Expect: cat(ex("User", "delete", "u1"), ex("Pet", "delete", ""), ex("Profile", "delete", "")),
 		Run: func(db *gorm.DB) error {
